@@ -9,7 +9,13 @@ use reactive_graph::{
     traits::{Get, Update, With, WithUntracked},
 };
 use rustc_hash::FxHashMap;
-use std::{fmt::Debug, sync::Arc};
+use std::{
+    fmt::Debug,
+    sync::{
+        atomic::{AtomicUsize, Ordering},
+        Arc,
+    },
+};
 use tachys::{
     html::attribute::{any_attribute::AnyAttribute, Attribute},
     hydration::Cursor,
@@ -468,11 +474,16 @@ impl ErrorBoundaryErrorHook {
 
 impl ErrorHook for ErrorBoundaryErrorHook {
     fn throw(&self, error: Error) -> ErrorId {
-        // generate a unique ID
-        let key: ErrorId = Owner::current_shared_context()
-            .map(|sc| sc.next_id())
-            .unwrap_or_default()
-            .into();
+        // generate a unique ID: with a shared context (server rendering, hydration) it is the next
+        // serialized-data id, which is the same on the server and in the browser; without one
+        // (client-side rendering) it only has to differ from the other errors of this boundary
+        let key: ErrorId = match Owner::current_shared_context() {
+            Some(sc) => sc.next_id().into(),
+            None => {
+                static NEXT_ID: AtomicUsize = AtomicUsize::new(0);
+                NEXT_ID.fetch_add(1, Ordering::Relaxed).into()
+            }
+        };
 
         // register it with the shared context, so that it can be serialized from server to client
         // as needed
